@@ -218,19 +218,57 @@ def neighbourhood(divs, limit=6):
     return out
 
 
+def stress2_extra(pid):
+    """Free-running runs with perturbation through the public API (a key type whose Hash occasionally busy-waits), judged
+    by public invariants: the total is never negative; after deleting everything the total is 0 and keys added = deleted."""
+    def extra(ctx, res, allsched, impl):
+        import subprocess
+        binary, seed, tier = ctx["binary"], ctx["seed"], ctx["tier"]
+        plan = [(4, 1500)] if tier == "quick" else [(2, 5000), (4, 5000), (8, 5000), (4, 20000)]
+        runs = []
+        for n, (threads, millis) in enumerate(plan):
+            try:
+                p = subprocess.run([binary, "stress2", str(threads), str(millis), str(seed + n)], capture_output=True, text=True, timeout=millis / 1000.0 + 90)
+                out = [json.loads(l) for l in p.stdout.splitlines() if l.startswith("{")]
+            except subprocess.TimeoutExpired:
+                res["failures"].append(dict(signature="stress-run-hung", what="the perturbed stress run with %d threads did not finish" % threads, threads=threads, millis=millis, seed=seed + n))
+                continue
+            for d in out:
+                if not d.get("stress2"):
+                    continue
+                runs.append({k: d[k] for k in ("threads", "millis", "operations", "min_total_seen", "final_total", "keys_balance", "panic_count", "hung")})
+                res["evaluations"] += d["operations"]
+                rep = dict(threads=threads, millis=millis, seed=seed + n, replay="./.build/target/debug/cached-verif-harness stress2 %d %d %d" % (threads, millis, seed + n), observed=d)
+                if d["hung"]:
+                    res["failures"].append(dict(rep, signature="stress-callers-hung", what="callers or acknowledgements did not complete under the perturbed stress run"))
+                    continue
+                if pid in ("C01", "C05") and d["min_total_seen"] < 0:
+                    res["failures"].append(dict(rep, signature="negative-total-under-concurrency", what="total weight used went down to %d during a concurrent run (sweeps, deletes, evictions on the same keys)" % d["min_total_seen"]))
+                if pid in ("C01", "C05") and d["final_total"] != 0:
+                    res["failures"].append(dict(rep, signature="weight-left-after-deleting-everything", what="after every key was deleted and acknowledged the total weight used is %d, not 0" % d["final_total"]))
+                if pid in ("C05", "C16") and d["keys_balance"] != 0:
+                    res["failures"].append(dict(rep, signature="keys-balance-after-deleting-everything", what="after every key was deleted KeysAdded - KeysDeleted is %d, not 0" % d["keys_balance"]))
+                for role, st in d["roles"].items():
+                    if "Dead" in st and pid in ("C01", "C05", "C17"):
+                        res["failures"].append(dict(rep, signature="background-thread-died-under-stress", what="%s died: %s" % (role, st)))
+        res["extra"]["perturbed_stress_runs"] = runs
+        res["rule"] += "; plus %d free-running perturbed stress run(s) (key Hash occasionally busy-waits) judged by public invariants" % len(plan)
+    return extra
+
+
 def mk(pid, profiles, nq, nt, **kw):
     return lambda ctx: run_sched(ctx, pid, profiles, nq, nt, **kw)
 
 
 PROPS.update({
-    "C01": dict(module="C01", run=mk("C01", ["general", "default_weights", "ttl", "queue1", "evict", "evict2"], 260, 4000),
+    "C01": dict(module="C01", run=mk("C01", ["general", "default_weights", "ttl", "queue1", "evict", "evict2"], 260, 4000, extra=stress2_extra("C01")),
                 components=["weights", "admission", "api", "queue_worker", "store", "ticker"],
                 assumptions=["schedule class proved: all phase-contiguous schedules (one call / command / sweep / batch at a time; calls may be unawaited, callers may be parked); finer interleavings of the worker's check-then-add with sweeper subtractions: ledger model (Ledger.v) once built",
                              "overflow-checking (debug) profile"]),
     "C03": dict(module="C03", run=mk("C03", ["roomy", "awaited", "ttl", "ttlchain", "general"], 250, 4000), components=["store", "weights", "admission", "ticker", "api", "queue_worker", "time"],
                 assumptions=["partial: phase-contiguous schedules; 'no memory pressure' is stated per executed put (it fits the free space)"]),
     "C04": dict(module="C04", run=mk("C04", ["general", "ttl", "awaited", "queue1"], 250, 4000), components=["store", "api", "queue_worker", "weights", "ticker"]),
-    "C05": dict(module="C05", run=mk("C05", ["general", "queue1", "ttl", "evict", "evict2"], 250, 4000), components=["weights", "store", "api", "queue_worker", "ticker", "admission"]),
+    "C05": dict(module="C05", run=mk("C05", ["general", "queue1", "ttl", "evict", "evict2"], 250, 4000, extra=stress2_extra("C05")), components=["weights", "store", "api", "queue_worker", "ticker", "admission"]),
     "C06": dict(module="C06", run=mk("C06", ["evict2", "evict", "general"], 270, 4000), components=["admission", "weights", "sketch", "tinylfu", "store"]),
     "C07": dict(module="C07", run=mk("C07", ["general", "ttl", "awaited"], 250, 4000), components=["store", "api", "time", "queue_worker"]),
     "C08": dict(module="C08", run=mk("C08", ["general", "ttl", "roomy", "ttlchain"], 250, 4000), components=["store", "api", "ticker", "weights", "time", "queue_worker"]),
@@ -262,15 +300,15 @@ def run_C12(ctx):
 PROPS.update({
     "C02": dict(module="C02", run=mk("C02", ["general", "reads", "ttl", "evict", "queue1"], 250, 4000), components=["store", "api", "queue_worker", "time"],
                 assumptions=["phase-contiguous schedules; every write uses a unique value token; hash functions identity / constant / mod 2 / multiplicative"]),
-    "C11": dict(module="C11", run=mk("C11", ["queue1", "general", "shutdown"], 250, 4000), components=["queue_worker", "api"],
+    "C11": dict(module="C11", run=mk("C11", ["queue1", "general", "shutdown"], 250, 4000), components=["queue_worker", "api", "roles"],
                 assumptions=["that crossbeam's bounded channel is FIFO and that send blocks when full is exercised through parked senders (queue sizes 1,2,3,8), not proved"]),
     "C12": dict(module="C12", run=run_C12, components=["ack"],
                 assumptions=["each access to status / waker slot is one atomic action because it happens under its parking_lot mutex; Release/Acquire on the flag is modelled as sequentially consistent"]),
-    "C13": dict(module="C13", run=mk("C13", ["shutdown", "queue1", "general"], 250, 4000), components=["api", "queue_worker", "pool", "store", "weights", "ticker"],
+    "C13": dict(module="C13", run=mk("C13", ["shutdown", "queue1", "general"], 250, 4000), components=["api", "queue_worker", "pool", "store", "weights", "ticker", "roles"],
                 assumptions=["partial: 'shutdown() returns' and 'every acknowledgement completes' are proved as enabledness/progress facts of the model; that the worker and consumer threads keep being scheduled is assumed"]),
     "C15": dict(module="C15", run=mk("C15", ["reads", "evict", "general"], 250, 4000), components=["pool", "stats", "tinylfu", "api"],
                 assumptions=["partial: 'never blocks' is enabledness in the model; that crossbeam's select!{send, default} does not block is exercised with a gated (stalled) and an exited consumer, not proved"]),
-    "C17": dict(module="C17", run=mk("C17", ["boundary", "general", "ttl", "queue1"], 300, 5000), components=["panics", "api", "store", "weights", "admission", "ticker", "sketch", "tinylfu", "queue_worker", "time", "pool"],
+    "C17": dict(module="C17", run=mk("C17", ["boundary", "general", "ttl", "queue1"], 300, 5000), components=["panics", "roles", "api", "store", "weights", "admission", "ticker", "sketch", "tinylfu", "queue_worker", "time", "pool"],
                 assumptions=["partial: covers the panic sites the model represents (assert!/unwrap/expect/index operations/i64 overflow under the debug profile/SystemTime addition); allocation failure, thread spawn failure and panics inside dependencies are not modelled",
                              "documented preconditions: positive weights, a well-formed upsert, an upsert that turns into a put carries a value"]),
     "C16": dict(module="C16", run=mk("C16", ["general", "reads", "ttl", "evict"], 250, 4000), components=["stats", "stats.hit_ratio", "store", "weights", "queue_worker", "api", "admission"]),
